@@ -355,22 +355,39 @@ func runC13(c *Ctx) {
 		okColl := false
 		if matchSlice != nil {
 			for _, v := range appendedValues(matchSlice) {
-				ins, isIns := v.(ssa.Instruction)
-				if !isIns {
-					continue
-				}
-				for _, cc := range controlConds(ins.Block(), nil) {
-					if cl, isCall := cc.If.Cond.(*ssa.Call); isCall && cc.Edge == 0 {
-						if _, isParam := cl.Common().Value.(*ssa.Parameter); isParam {
-							// the id collected is that of the excerpt tested
-							if idc, isIdc := v.(*ssa.Call); isIdc && len(cl.Common().Args) == 1 {
-								recv := idc.Common().Value
-								if recv == cl.Common().Args[0] || stripConv(recv) == stripConv(cl.Common().Args[0]) {
-									okColl = true
-								}
-							}
+				// the block appending must be control dependent on the predicate accepting and on nothing else
+				var apBlk *ssa.BasicBlock
+				for _, ap := range appendCallsOf(matchSlice) {
+					for _, av := range appendedValues(ap) {
+						if av == v {
+							apBlk = ap.Block()
 						}
 					}
+				}
+				if apBlk == nil {
+					continue
+				}
+				saw := false
+				only, _ := onlyControlledBy(apBlk, func(cc controlCond) bool {
+					cl, isCall := cc.If.Cond.(*ssa.Call)
+					if !isCall || cc.Edge != 0 {
+						return false
+					}
+					if _, isParam := cl.Common().Value.(*ssa.Parameter); !isParam {
+						return false
+					}
+					// the id collected is that of the excerpt tested
+					if idc, isIdc := v.(*ssa.Call); isIdc && len(cl.Common().Args) == 1 {
+						recv := idc.Common().Value
+						if recv == cl.Common().Args[0] || stripConv(recv) == stripConv(cl.Common().Args[0]) {
+							saw = true
+							return true
+						}
+					}
+					return false
+				})
+				if only && saw {
+					okColl = true
 				}
 			}
 		}
@@ -428,6 +445,7 @@ func runC13(c *Ctx) {
 		}
 		c.Check(multi && none, "R13.2", "ResolveComment:outcome", pos, "several matches and no match are errors", "ResolveComment does not refuse several matches / no match")
 	}
+	checkC13Scans(c)
 	// R13.3
 	for _, t := range []string{"Id", "CombinedId"} {
 		fn := w.Method("entity", t, "HasPrefix")
@@ -469,4 +487,356 @@ func runC13(c *Ctx) {
 		}
 		c.Check(ok, "R13.3", "cache.SubCache."+m, w.FnPos(fn), "matches excerpt.Id().HasPrefix(prefix)", m+" does not match by id prefix")
 	}
+}
+
+// earlyLoopExits lists the edges that leave a natural loop of fn from another block than the
+// loop header (break, return, goto) and do not lead to a failing return: a scan with such an
+// edge does not visit every element.
+type loopExit struct {
+	Header, From, To *ssa.BasicBlock
+}
+
+func earlyLoopExits(fn *ssa.Function) (exits []loopExit, loops int) {
+	for _, h := range fn.Blocks {
+		if !isLoopHeader(h) {
+			continue
+		}
+		loops++
+		for _, b := range fn.Blocks {
+			if b == h || !inLoop(b, h) {
+				continue
+			}
+			for _, s := range b.Succs {
+				if inLoop(s, h) {
+					continue
+				}
+				if strictlyFails(s, defaultFail) {
+					continue
+				}
+				exits = append(exits, loopExit{h, b, s})
+			}
+		}
+	}
+	return
+}
+
+// onlyControlledBy: every branch edge block b is control dependent on is the condition of a
+// loop header (the range continuing) or accepted by ok; returns the offending condition.
+func onlyControlledBy(b *ssa.BasicBlock, ok func(cc controlCond) bool) (bool, *ssa.If) {
+	for _, cc := range controlConds(b, nil) {
+		if isLoopHeader(cc.If.Block()) {
+			continue
+		}
+		if ok(cc) {
+			continue
+		}
+		return false, cc.If
+	}
+	return true, nil
+}
+
+// reachWithoutEdge: is block `to` reachable from block `from` without taking an edge for
+// which forbidden(block, successor index) holds?
+func reachWithoutEdge(from, to *ssa.BasicBlock, forbidden func(b *ssa.BasicBlock, succ int) bool) bool {
+	seen := map[*ssa.BasicBlock]bool{from: true}
+	q := []*ssa.BasicBlock{from}
+	for len(q) > 0 {
+		x := q[0]
+		q = q[1:]
+		if x == to {
+			return true
+		}
+		for i, s := range x.Succs {
+			if seen[s] || forbidden(x, i) {
+				continue
+			}
+			seen[s] = true
+			q = append(q, s)
+		}
+	}
+	return false
+}
+
+func checkC13Scans(c *Ctx) {
+	w := c.W
+	c.Doc("R13.4", "the scans behind prefix resolution are complete: no edge leaves a loop of resolveMatcher / ResolveComment before the range is exhausted except to a failing return; a candidate is collected under no other condition than the prefix test (and the success of resolving the candidate bug); the comment and bug returned are those of the collected match; the multiple-match error carries the collected ids")
+	c.Doc("R13.5", "commands/select.Resolve falls back to the selected entity only when ResolvePrefix(args[0]) failed with not-found: the selected() call is reachable from the ResolvePrefix call only through the true outcome of entity.IsErrNotFound on that call's error, and the other outcome returns an error")
+	for _, tm := range [][2]string{{"SubCache", "resolveMatcher"}, {"RepoCacheBug", "ResolveComment"}} {
+		fn := w.Method("cache", tm[0], tm[1])
+		if fn == nil {
+			c.Undecided("R13.4", "anchor:"+tm[1], "cache", "not found")
+			continue
+		}
+		fn = bodyOf(fn)
+		exits, loops := earlyLoopExits(fn)
+		c.Sites += len(fn.Blocks)
+		if loops == 0 {
+			c.Undecided("R13.4", tm[1]+":scan-complete", w.FnPos(fn), "no loop recognised in the scan")
+			continue
+		}
+		if len(exits) == 0 {
+			c.Hold("R13.4", tm[1]+":scan-complete", w.FnPos(fn), fmt.Sprintf("%d loop(s), left only at exhaustion or to a failing return", loops))
+		} else {
+			e := exits[0]
+			pos := w.FnPos(fn)
+			if len(e.From.Instrs) > 0 {
+				pos = w.InstrPos(e.From.Instrs[len(e.From.Instrs)-1])
+				for _, ins := range e.From.Instrs {
+					if ins.Pos().IsValid() {
+						pos = w.InstrPos(ins)
+					}
+				}
+			}
+			c.Violate("R13.4", tm[1]+":scan-complete", pos, fmt.Sprintf("the loop at %s is left before every element was examined (block %d → %d): later matches are not seen, so an ambiguous prefix can resolve or the error lists only some matches", w.InstrPos(firstPosInstr(e.Header)), e.From.Index, e.To.Index))
+		}
+	}
+	// ResolveComment: collection conditions and returned values
+	if rc := w.Method("cache", "RepoCacheBug", "ResolveComment"); rc != nil {
+		pos := w.FnPos(rc)
+		var prefixParam ssa.Value
+		for _, pp := range rc.Params {
+			if isStringType(pp.Type()) {
+				prefixParam = pp
+			}
+		}
+		var lenSlice ssa.Value
+		carries := false
+		for _, g := range cmpGuards(rc, nil) {
+			lc, isCall := g.X.(*ssa.Call)
+			if !isCall {
+				continue
+			}
+			if bi, isB := lc.Common().Value.(*ssa.Builtin); !isB || bi.Name() != "len" {
+				continue
+			}
+			k, isK := constInt(g.Y)
+			if !isK || !((g.Op == token.GTR && k == 1) || (g.Op == token.GEQ && k == 2)) {
+				continue
+			}
+			lenSlice = lc.Common().Args[0]
+			fb := g.If.Block().Succs[errEdge(g.If, defaultFail)]
+			for _, ins := range fb.Instrs {
+				if cl, ok := ins.(*ssa.Call); ok {
+					if n, _ := callName(cl.Common()); n == "entity.NewErrMultipleMatch" && len(cl.Common().Args) == 2 && cl.Common().Args[1] == lenSlice {
+						carries = true
+					}
+				}
+			}
+		}
+		c.Check(carries, "R13.4", "ResolveComment:multiple-carries-matches", pos, "the multiple-match error carries the slice that was counted", "the multiple-match error of ResolveComment does not list the collected matches")
+		okCond, okVals := false, false
+		var why string
+		if lenSlice != nil {
+			for _, ap := range appendCallsOf(lenSlice) {
+				blk := ap.Block()
+				sawPrefix := false
+				ok, bad := onlyControlledBy(blk, func(cc controlCond) bool {
+					if cl, isCall := cc.If.Cond.(*ssa.Call); isCall && cc.Edge == 0 {
+						if n, _ := callName(cl.Common()); strings.HasSuffix(n, "entity.CombinedId.HasPrefix") {
+							a := (&Call{Instr: cl}).Args()
+							if len(a) > 0 && a[0] == prefixParam {
+								sawPrefix = true
+								return true
+							}
+						}
+					}
+					// err == nil of resolving the candidate
+					if bo, isB := cc.If.Cond.(*ssa.BinOp); isB && isErrorType(bo.X.Type()) && isNilConst(bo.Y) {
+						return (bo.Op == token.NEQ && cc.Edge == 1) || (bo.Op == token.EQL && cc.Edge == 0)
+					}
+					return false
+				})
+				if ok && sawPrefix {
+					okCond = true
+				} else if bad != nil {
+					why = "additionally conditional on " + w.InstrPos(bad)
+				}
+				// returned comment id and bug: set in the collecting block
+				for _, r := range Returns(rc) {
+					if returnKind(r) == RetError {
+						continue
+					}
+					idOK, bugOK := false, false
+					for _, o := range origins(ReturnResult(r, 1)) {
+						if cl, isCall := o.Val.(*ssa.Call); isCall && o.Kind == "call" && strings.HasSuffix(o.Name, "Comment.CombinedId") && cl.Block() == blk {
+							idOK = true
+						}
+					}
+					for _, o := range origins(ReturnResult(r, 0)) {
+						if o.Kind == "call" && strings.HasSuffix(o.Name, ".Resolve") && o.Idx == 0 {
+							if cl, isCall := o.Val.(*ssa.Call); isCall && cl.Block().Dominates(blk) {
+								bugOK = true
+							}
+						}
+					}
+					if idOK && bugOK {
+						okVals = true
+					}
+				}
+			}
+		}
+		// the bug candidates: collected iff Id().HasPrefix(primary part)
+		okCand := false
+		for _, cl := range Calls(rc) {
+			if !strings.HasSuffix(cl.Name, "entity.Id.HasPrefix") {
+				continue
+			}
+			cv, _ := cl.Instr.(*ssa.Call)
+			for _, b := range rc.Blocks {
+				for _, ins := range b.Instrs {
+					ap, isCall := ins.(*ssa.Call)
+					if !isCall {
+						continue
+					}
+					if bi, isB := ap.Common().Value.(*ssa.Builtin); !isB || bi.Name() != "append" {
+						continue
+					}
+					saw := false
+					only, _ := onlyControlledBy(b, func(cc controlCond) bool {
+						if cc.If.Cond == ssa.Value(cv) && cc.Edge == 0 {
+							saw = true
+							return true
+						}
+						return false
+					})
+					if only && saw {
+						// the id appended is the id tested
+						for _, av := range appendedValues(ap) {
+							if idc, isIdc := av.(*ssa.Call); isIdc && len(idc.Common().Args) > 0 && len(cv.Common().Args) > 0 {
+								if tested, isT := cv.Common().Args[0].(*ssa.Call); isT && len(tested.Common().Args) > 0 && tested.Common().Args[0] == idc.Common().Args[0] {
+									okCand = true
+								}
+							}
+						}
+					}
+				}
+			}
+		}
+		c.Check(okCand, "R13.4", "ResolveComment:candidates-iff-primary-prefix", pos, "a bug is a candidate iff its id has the primary part of the prefix", "bug candidates are not collected exactly when excerpt.Id().HasPrefix(primary part) holds")
+		c.Check(okCond, "R13.4", "ResolveComment:collect-iff-prefix", pos, "a bug id is collected for every comment whose combined id has the prefix, under no other condition", "a comment match is not collected exactly when CombinedId().HasPrefix(prefix) holds "+why)
+		c.Check(okVals, "R13.4", "ResolveComment:returns-the-match", pos, "the bug and the combined id returned are those of the collected match", "the values returned on success are not the resolved candidate bug and the combined id of the matching comment")
+	}
+	// R13.5
+	sel := w.Func("commands/select", "Resolve")
+	if sel == nil {
+		c.Undecided("R13.5", "anchor:select.Resolve", "commands/select", "not found")
+		return
+	}
+	sel = bodyOf(sel)
+	c.seeFn(funcName(sel))
+	var rp, selCall *ssa.Call
+	for _, cl := range Calls(sel) {
+		c.Sites++
+		if strings.HasSuffix(cl.Name, "Resolver.ResolvePrefix") {
+			rp, _ = cl.Instr.(*ssa.Call)
+		}
+		if cl.Name == "commands/select.selected" {
+			selCall, _ = cl.Instr.(*ssa.Call)
+		}
+	}
+	if rp == nil || selCall == nil {
+		c.Undecided("R13.5", "select.Resolve:fallback-only-on-not-found", w.FnPos(sel), "ResolvePrefix / selected call not found")
+		return
+	}
+	errs := map[ssa.Value]bool{}
+	for _, e := range errValues(rp) {
+		errs[e] = true
+	}
+	// argument is args[0]
+	isTest := func(b *ssa.BasicBlock) (neg bool, ok bool) {
+		if len(b.Instrs) == 0 {
+			return
+		}
+		iff, isIf := b.Instrs[len(b.Instrs)-1].(*ssa.If)
+		if !isIf {
+			return
+		}
+		cond := iff.Cond
+		for {
+			if u, isU := cond.(*ssa.UnOp); isU && u.Op == token.NOT {
+				neg = !neg
+				cond = u.X
+				continue
+			}
+			break
+		}
+		cl, isCall := cond.(*ssa.Call)
+		if !isCall {
+			return
+		}
+		if n, _ := callName(cl.Common()); n != "entity.IsErrNotFound" || len(cl.Common().Args) != 1 || !errs[cl.Common().Args[0]] {
+			return
+		}
+		return neg, true
+	}
+	gate := 0
+	otherFails := false
+	for _, b := range sel.Blocks {
+		if neg, ok := isTest(b); ok {
+			gate++
+			fe := 1
+			if neg {
+				fe = 0
+			}
+			if strictlyFails(b.Succs[fe], defaultFail) {
+				otherFails = true
+			}
+		}
+	}
+	leak := reachWithoutEdge(rp.Block(), selCall.Block(), func(b *ssa.BasicBlock, succ int) bool {
+		neg, ok := isTest(b)
+		if !ok {
+			return false
+		}
+		te := 0
+		if neg {
+			te = 1
+		}
+		return succ == te
+	})
+	c.Check(gate > 0 && !leak && otherFails, "R13.5", "select.Resolve:fallback-only-on-not-found", w.InstrPos(selCall),
+		"the selection is consulted only after IsErrNotFound(err of ResolvePrefix); every other failure is returned",
+		"a failure of ResolvePrefix(args[0]) other than not-found (e.g. an ambiguous prefix) falls through to the selected entity: the command then acts on an entity the prefix does not designate")
+}
+
+func firstPosInstr(b *ssa.BasicBlock) ssa.Instruction {
+	for _, ins := range b.Instrs {
+		if ins.Pos().IsValid() {
+			return ins
+		}
+	}
+	for _, p := range b.Preds {
+		for _, ins := range p.Instrs {
+			if ins.Pos().IsValid() {
+				return ins
+			}
+		}
+	}
+	return b.Instrs[0]
+}
+
+// appendCallsOf: the append calls whose results flow (through phis and further appends) into v.
+func appendCallsOf(v ssa.Value) []*ssa.Call {
+	var out []*ssa.Call
+	seen := map[ssa.Value]bool{}
+	var walk func(v ssa.Value)
+	walk = func(v ssa.Value) {
+		if v == nil || seen[v] {
+			return
+		}
+		seen[v] = true
+		switch x := v.(type) {
+		case *ssa.Phi:
+			for _, e := range x.Edges {
+				walk(e)
+			}
+		case *ssa.Call:
+			if b, ok := x.Common().Value.(*ssa.Builtin); ok && b.Name() == "append" {
+				out = append(out, x)
+				walk(x.Common().Args[0])
+			}
+		}
+	}
+	walk(v)
+	return out
 }
